@@ -172,6 +172,8 @@ def replay(ctx, st, idx):
                             ok = v == (c[1] if kind == 'int' else A_ * c[1] + B_ * weight(pat, j, i) / 2.0)
                         elif fill == 0.0:
                             ok = v == 0.0
+                        elif c[0] == 'zf':     # outside the image, weight 0: the fill value itself
+                            ok = same_fill(v, fill)
                         else:     # the statement leaves weight-0 / outside-image cells open between fill, fill*weight and 0
                             wgt = weight(pat, j, i) / 2.0
                             ok = same_fill(v, fill) or v == 0.0 or (not math.isnan(fill * wgt) and v == fill * wgt) or (math.isnan(fill * wgt) and math.isnan(v))
@@ -206,6 +208,23 @@ def replay(ctx, st, idx):
                 want = [A_ * d + B_ * wg for d, wg in zip(want, ws)] if len(ws) == len(want) else None
             if want is None or o.ndim != 1 or [float(v) for v in o] != [float(v) for v in want]:
                 return ctx.violation(sig + 'values', f'get_values returned {o.tolist()}, expected {want}', case)
+            if kind != 'int' and want:
+                # the same call on an image in which some pixels are NaN / +-inf: a value is returned for every pixel of positive
+                # weight that is not masked - what the data holds there does not decide whether it is returned
+                base = np.array([[2 * (10 * y + x + 1) for x in range(w)] for y in range(h)]).reshape(h, w)
+                img2 = plain(img).copy()
+                img2[base % 10 == 4] = np.nan
+                img2[base % 10 == 8] = np.inf
+                img2[base % 14 == 6] = -np.inf
+                if kind == 'quantity':
+                    img2 = img2 * u.adu
+                o2 = plain(mask.get_values(img2, mask=mk))
+                cells = [(y, x) for y in range(h) for x in range(w)
+                         if box[0] <= x < box[1] and box[2] <= y < box[3] and weight(pat, y - box[2], x - box[0]) > 0 and not (arg == 'alt' and (x + y) % 2 == 1)]
+                exp2 = [float(plain(img2)[y, x]) * (weight(pat, y - box[2], x - box[0]) / 2.0) for y, x in cells]
+                same = o2.ndim == 1 and len(o2) == len(exp2) and all((math.isnan(a) and math.isnan(b)) or a == b for a, b in zip([float(v) for v in o2], exp2))
+                if not same:
+                    return ctx.violation(sig + 'nonfinite', f'get_values on data holding NaN/inf returned {len(o2)} value(s) {o2.tolist()}, expected {len(exp2)}: {exp2}', case)
     except Exception as ex:  # noqa
         return ctx.violation(sig + f'raises|{type(ex).__name__}', f'{op} raised {ex!r}', case)
     if plain(img).tobytes() != img_before or mask.data.tobytes() != m_before:
